@@ -1,30 +1,433 @@
 /* ext.c -- object kinds beyond fd/timer/task/event/raw (signals, children,
  * work pools, iv_thread, popen, pump, inotify) and their oracles. */
 #define _GNU_SOURCE
+#include <errno.h>
+#include <inttypes.h>
+#include <signal.h>
 #include <stdlib.h>
 #include <string.h>
-#include "engine.h"
+#include <sys/wait.h>
+#include <unistd.h>
 
-int ext_live(int id) { (void)id; return 0; }
-int ext_reg(struct rthr *th, int id, const struct pop *op) { (void)th; (void)id; (void)op; return 0; }
-int ext_unreg(struct rthr *th, int id, int keep) { (void)th; (void)id; (void)keep; return 0; }
-int ext_op(struct rthr *th, const struct pop *op) { (void)th; (void)op; return 0; }
-void ext_cb(struct rthr *th, int id, int kind, int band, int64_t x1, int64_t x2) { (void)th; (void)id; (void)kind; (void)band; (void)x1; (void)x2; }
-int ext_foreign_thread_ok(int id, int kind) { (void)id; (void)kind; return 0; }
-int ext_nesting_ok(int kind, int outer_kind) { (void)kind; (void)outer_kind; return 0; }
-int ext_stale_ok(int id, int kind, int band) { (void)id; (void)kind; (void)band; return 0; }
+#include <iv.h>
+#include <iv_event.h>
+#include <iv_event_raw.h>
+#include <iv_signal.h>
+
+#include "engine.h"
+#include "ext.h"
+
+/* =====================================================================================
+ * C10: iv_signal
+ * ===================================================================================== */
+#define SX_INPROG	0	/* 1 register in progress, 2 unregister in progress */
+#define SX_OWED		1	/* seq of the latest delivery that obliges this interest individually */
+#define SX_WAKES	2	/* upper bound on wake-ups that may have reached it */
+#define SX_ENTRYSEQ	3
+#define SX_ENTRIES	4
+#define SX_INHANDLER	5
+#define SX_REL0		6	/* owner's spin-unlock count when the (un)registration call began */
+
+#define NGROUP 256
+static struct sgroup { int sig, scope, open; uint64_t seq; } sgroup[NGROUP];
+static int nsgroup;
+static long spin_releases[SIMK_MAXT];
+/* a delivery whose handler has been entered but has not yet walked the process-wide tree */
+static struct { int sig, stage; uint64_t seq; } pend_deliv[SIMK_MAXT];
+
+static void h_signal(void *ck) { generic_cb(ck, K_SIGNAL, 0, 0, 0); }
+
+/* Is interest i in its tree at this instant?  Registration inserts, and unregistration removes,
+ * inside one critical section of the library's signal spinlock (the only spinlock it has); a
+ * call in progress has taken effect iff its thread has left that critical section. */
+static int sig_in_tree(int i)
+{
+	struct robj *o = &RO[i];
+	int owner_sim = RT[PL->obj[i].owner].sim;
+	int done = spin_releases[owner_sim] > o->xi[SX_REL0];
+	if (o->xi[SX_INPROG] == 1)
+		return done;
+	if (o->xi[SX_INPROG] == 2)
+		return !done;
+	return o->registered;
+}
+
+static int sig_count(int sig, int *inprog)
+{
+	int i, n = 0;
+	*inprog = 0;
+	for (i = 0; i < PL->nobj; i++)
+		if (PL->obj[i].kind == K_SIGNAL && PL->obj[i].p[0] == sig) {
+			if (RO[i].xi[SX_INPROG])
+				(*inprog)++;
+			else if (RO[i].registered)
+				n++;
+		}
+	return n;
+}
+
+static void check_disposition(int sig)
+{
+	int inprog, n = sig_count(sig, &inprog);
+	if (inprog)
+		return;
+	if (n == 0 && simk_sigaction_query(sig) != 0)
+		viol("C10.disposition", "signal %d: no interest is registered any more but the disposition was not restored to the default", sig);
+	if (n > 0 && simk_sigaction_query(sig) != 2)
+		viol("C10.disposition", "signal %d: %d interest(s) registered but the process disposition is not the library's handler", sig, n);
+}
+
+static int signal_reg(struct rthr *th, int id)
+{
+	struct robj *o = &RO[id];
+	const struct pobj *po = &PL->obj[id];
+	struct iv_signal *is;
+	int ret;
+
+	if (o->mem == NULL) {
+		o->memsz = sizeof(struct iv_signal);
+		o->mem = malloc(o->memsz);
+		memset(o->mem, 0xA5, o->memsz);
+	}
+	is = o->mem;
+	IV_SIGNAL_INIT(is);
+	is->signum = (int)po->p[0];
+	is->flags = (unsigned int)po->p[1];
+	is->cookie = new_cookie(id);
+	is->handler = h_signal;
+	o->xi[SX_REL0] = spin_releases[th->sim];
+	o->xi[SX_INPROG] = 1;
+	o->xi[SX_OWED] = 0;
+	o->xi[SX_WAKES] = 0;
+	o->xi[SX_ENTRYSEQ] = 0;
+	o->xi[SX_ENTRIES] = 0;
+	++SEQ;
+	ret = iv_signal_register(is);
+	o->xi[SX_INPROG] = 0;
+	if (ret != 0) {
+		obj_free_mem(id);
+		return 1;
+	}
+	o->registered = 1;
+	check_disposition((int)po->p[0]);
+	return 1;
+}
+
+static int scope_of(int i)
+{
+	return (PL->obj[i].p[1] & IV_SIGNAL_FLAG_THIS_THREAD) ? PL->obj[i].owner : -1;
+}
+
+static int signal_unreg(struct rthr *th, int id)
+{
+	struct robj *o = &RO[id];
+	const struct pobj *po = &PL->obj[id];
+	int i, g;
+
+	/* every other interest of the same signal and scope may receive a hand-off from this call */
+	for (i = 0; i < PL->nobj; i++)
+		if (i != id && PL->obj[i].kind == K_SIGNAL && PL->obj[i].p[0] == po->p[0] && scope_of(i) == scope_of(id) &&
+		    (RO[i].registered || RO[i].xi[SX_INPROG]))
+			RO[i].xi[SX_WAKES]++;
+	o->xi[SX_REL0] = spin_releases[th->sim];
+	o->registered = 0;
+	o->xi[SX_INPROG] = 2;
+	iv_signal_unregister(o->mem);
+	o->xi[SX_INPROG] = 0;
+	o->gen++;
+	obj_free_mem(id);
+	/* a group obligation lapses when nobody of its signal and scope is left to hand it to */
+	for (g = 0; g < nsgroup; g++) {
+		int remain = 0;
+		if (!sgroup[g].open || sgroup[g].sig != po->p[0] || sgroup[g].scope != scope_of(id))
+			continue;
+		for (i = 0; i < PL->nobj; i++)
+			if (PL->obj[i].kind == K_SIGNAL && PL->obj[i].p[0] == po->p[0] && scope_of(i) == scope_of(id) && sig_in_tree(i))
+				remain++;
+		if (!remain)
+			sgroup[g].open = 0;
+		else if (po->p[1] & IV_SIGNAL_FLAG_EXCLUSIVE)
+			PROBE[PR_SIG_HANDOFF]++;
+	}
+	check_disposition((int)po->p[0]);
+	return 1;
+}
+
+/* the handler walks a tree now: scope >= 0 the receiving thread's own tree, -1 the process-wide one.
+ * Returns the number of interests in that tree for the signal. */
+static int sig_walk(int sig, int scope, uint64_t seq)
+{
+	int i, n_set = 0, n_excl = 0, set[MAXOBJ];
+
+	for (i = 0; i < PL->nobj; i++) {
+		if (PL->obj[i].kind != K_SIGNAL || PL->obj[i].p[0] != sig || scope_of(i) != scope || !sig_in_tree(i))
+			continue;
+		set[n_set++] = i;
+		if (PL->obj[i].p[1] & IV_SIGNAL_FLAG_EXCLUSIVE)
+			n_excl++;
+	}
+	for (i = 0; i < n_set; i++) {
+		RO[set[i]].xi[SX_WAKES]++;
+		if (RO[set[i]].xi[SX_INHANDLER])
+			PROBE[PR_SIG_DURING_HANDLER]++;
+	}
+	if (n_set > 0 && n_excl == 0) {
+		for (i = 0; i < n_set; i++)
+			RO[set[i]].xi[SX_OWED] = (int64_t)seq;
+	} else if (n_set > 0 && nsgroup < NGROUP) {
+		/* one exclusive interest of the set must run; a hand-off may move that to any remaining one */
+		sgroup[nsgroup].sig = sig;
+		sgroup[nsgroup].scope = scope;
+		sgroup[nsgroup].seq = seq;
+		sgroup[nsgroup].open = 1;
+		nsgroup++;
+	}
+	return n_set;
+}
+
+/* simulator hook: a signal is about to be handled (phase 0), was handled (1), or met a
+ * default (2) / ignore (3) disposition */
+static void obs_sig_deliver(int tid, int sig, int phase)
+{
+	int rthread = sim2plan[tid];
+
+	if (phase == 1) {
+		pend_deliv[tid].stage = 0;
+		return;
+	}
+	if (phase >= 2) {
+		int inprog, n = sig_count(sig, &inprog);
+		if (n > 0 && !inprog)
+			viol("C10.disposition", "signal %d arrived with %s disposition while %d interest(s) are registered", sig,
+			     phase == 2 ? "the default" : "an ignoring", n);
+		if (have_viol())
+			finish(1);
+		return;
+	}
+	++SEQ;
+	/* the library's handler first looks at the receiving thread's own interests ... */
+	if (rthread >= 0 && RT[rthread].inited && sig_walk(sig, rthread, SEQ) > 0) {
+		pend_deliv[tid].stage = 2;
+		return;
+	}
+	/* ... and otherwise walks the process-wide tree once it holds the signal spinlock */
+	pend_deliv[tid].sig = sig;
+	pend_deliv[tid].seq = SEQ;
+	pend_deliv[tid].stage = 1;
+}
+
+static void obs_lock_event(int tid, void *addr, int acquired, int spin)
+{
+	(void)addr;
+	if (!spin)
+		return;
+	if (!acquired) {
+		/* critical sections of the signal handler itself do not count */
+		if (pend_deliv[tid].stage == 0)
+			spin_releases[tid]++;
+		return;
+	}
+	if (pend_deliv[tid].stage == 1) {
+		pend_deliv[tid].stage = 2;
+		sig_walk(pend_deliv[tid].sig, -1, pend_deliv[tid].seq);
+	}
+}
+
+static void signal_cb(struct rthr *th, int id)
+{
+	struct robj *o = &RO[id];
+	const struct pobj *po = &PL->obj[id];
+	int g, scope = scope_of(id);
+
+	(void)th;
+	PROBE[PR_SIG_CB]++;
+	o->xi[SX_ENTRIES]++;
+	o->xi[SX_ENTRYSEQ] = (int64_t)SEQ;
+	if (o->xi[SX_ENTRIES] > o->xi[SX_WAKES])
+		viol("C10.spurious", "signal interest obj %d (signal %d): handler invoked %" PRId64 " times but at most %" PRId64 " deliveries / hand-offs could have reached it", id, (int)po->p[0], o->xi[SX_ENTRIES], o->xi[SX_WAKES]);
+	for (g = 0; g < nsgroup; g++)
+		if (sgroup[g].open && sgroup[g].sig == po->p[0] && sgroup[g].scope == scope && sgroup[g].seq < SEQ)
+			sgroup[g].open = 0;
+}
+
+static void signal_obligations(void)
+{
+	int i, g;
+	for (i = 0; i < PL->nobj; i++) {
+		struct robj *o = &RO[i];
+		if (PL->obj[i].kind != K_SIGNAL || !o->registered)
+			continue;
+		if (!RT[PL->obj[i].owner].in_main)
+			continue;
+		if (o->xi[SX_OWED] > 0 && o->xi[SX_OWED] > o->xi[SX_ENTRYSEQ])
+			viol("C10.lost", "quiescence: signal interest obj %d (signal %d, flags %d) was owed a handler invocation for the delivery at seq %" PRId64 " but was last entered at seq %" PRId64,
+			     i, (int)PL->obj[i].p[0], (int)PL->obj[i].p[1], o->xi[SX_OWED], o->xi[SX_ENTRYSEQ]);
+	}
+	for (g = 0; g < nsgroup; g++) {
+		int remain = 0;
+		if (!sgroup[g].open)
+			continue;
+		for (i = 0; i < PL->nobj; i++)
+			if (PL->obj[i].kind == K_SIGNAL && PL->obj[i].p[0] == sgroup[g].sig && RO[i].registered &&
+			    scope_of(i) == sgroup[g].scope && RT[PL->obj[i].owner].in_main)
+				remain++;
+		if (remain)
+			viol("C10.lost", "quiescence: the delivery of signal %d at seq %" PRIu64 " (scope %d) had to wake one exclusive interest (or be handed to a remaining one), but none of the %d remaining interest(s) ran after it",
+			     sgroup[g].sig, sgroup[g].seq, sgroup[g].scope, remain);
+	}
+}
+
+/* ---- harness-installed signal handler: posts raw events from signal context (C09) ---- */
+static void hsig(int sig)
+{
+	int i;
+	for (i = 0; i < PL->nobj; i++)
+		if (PL->obj[i].kind == K_RAW && PL->obj[i].p[1] == sig && PL->obj[i].p[0] && RO[i].registered) {
+			struct pop op = { 0 };
+			op.op = OP_POST;
+			op.d = i;
+			exec_op(cur_thr(), &op);
+		}
+}
+
+/* =====================================================================================
+ * dispatch
+ * ===================================================================================== */
+int ext_live(int id)
+{
+	switch (PL->obj[id].kind) {
+	case K_SIGNAL:
+		return RO[id].registered;
+	}
+	return ext2_live(id);
+}
+
+int ext_maybe_live(int id) { return ext2_maybe_live(id); }
+/* library-internal iv_event posts (child reaper -> wait interest, workers -> pool owner, dying
+ * threads -> creator) cannot be observed individually: report "maybe" whenever another thread
+ * of the process is running library code that may post */
+int ext_posts_in_flight(int owner_thread)
+{
+	int i, n = 0;
+	for (i = 1; i < simk_nthreads(); i++)
+		if (simk_lib_thread(i) && !simk_thread_exited(i))
+			n++;
+	for (i = 0; i < PL->nthr; i++)
+		if (i != owner_thread && PL->thr[i].kind == 'L' && RT[i].inited && RT[i].in_wait_cb)
+			n++;
+	return n;
+}
+
+int ext_mem_idle(int id)
+{
+	/* work items that are still queued or running belong to the library */
+	if (PL->obj[id].kind == K_ITEM)
+		return RO[id].xi[0] == 0 || RO[id].xi[0] == 4;
+	return 1;
+}
+
+int ext_reg(struct rthr *th, int id, const struct pop *op)
+{
+	switch (PL->obj[id].kind) {
+	case K_SIGNAL:
+		return signal_reg(th, id);
+	}
+	return ext2_reg(th, id, op);
+}
+
+int ext_unreg(struct rthr *th, int id, int keep)
+{
+	switch (PL->obj[id].kind) {
+	case K_SIGNAL:
+		return signal_unreg(th, id);
+	}
+	return ext2_unreg(th, id, keep);
+}
+
+int ext_op(struct rthr *th, const struct pop *op)
+{
+	switch (op->op) {
+	case OP_RAISE:
+		if (op->d < 1 || op->d > 64)
+			return 0;
+		simk_log(101, OP_RAISE, op->d * 16 + op->a);
+		if (op->a <= 0 || op->a > PL->nthr)
+			simk_raise_process((int)op->d);
+		else
+			simk_raise_thread(RT[op->a - 1].sim, (int)op->d);
+		return 1;
+	case OP_BURST: {
+		long n = op->a, i;
+		struct pop p = *op;
+		p.op = OP_POST;
+		for (i = 0; i < n && !have_viol(); i++)
+			if (!exec_op(th, &p))
+				break;
+		return i > 0;
+	}
+	}
+	return ext2_op(th, op);
+}
+
+void ext_cb(struct rthr *th, int id, int kind, int band, int64_t x1, int64_t x2)
+{
+	switch (kind) {
+	case K_SIGNAL:
+		if (RO[id].registered) {
+			signal_cb(th, id);
+			RO[id].xi[SX_INHANDLER] = 1;
+		}
+		return;
+	}
+	ext2_cb(th, id, kind, band, x1, x2);
+}
+
+void ext_cb_exit(struct rthr *th, int id, int kind)
+{
+	(void)th;
+	if (kind == K_SIGNAL)
+		RO[id].xi[SX_INHANDLER] = 0;
+	ext2_cb_exit(th, id, kind);
+}
+
+int ext_foreign_thread_ok(int id, int kind) { return ext2_foreign_thread_ok(id, kind); }
+int ext_nesting_ok(int kind, int outer_kind) { return ext2_nesting_ok(kind, outer_kind); }
+int ext_stale_ok(int id, int kind, int band) { return ext2_stale_ok(id, kind, band); }
 void ext_timer_order(struct rthr *th, int id) { (void)th; (void)id; }
-void ext_wait_block(struct rthr *th) { (void)th; }
+void ext_wait_block(struct rthr *th) { ext2_wait_block(th); }
 void ext_wait_return(struct rthr *th, int res, int err) { (void)th; (void)res; (void)err; }
-void ext_time_advance(int64_t from, int64_t to) { (void)from; (void)to; }
+void ext_time_advance(int64_t from, int64_t to) { ext2_time_advance(from, to); }
 void ext_budget(const char *what) { (void)what; }
 void ext_deadlock(const char *what) { (void)what; }
 const char *ext_uaf_hint(void) { return ""; }
-const char *ext_uaf_prop(void) { return "C01.uaf"; }
-void ext_teardown(struct rthr *th) { (void)th; }
-void ext_post_main(struct rthr *th) { (void)th; }
+const char *ext_uaf_prop(void) { return ext2_uaf_prop(); }
+void ext_teardown(struct rthr *th) { ext2_teardown(th); }
+void ext_post_main(struct rthr *th) { ext2_post_main(th); }
 void ext_after_first_init(void) { }
-void ext_install_obs(void) { }
-void ext_run_begin(void) { }
-void ext_obligations(void) { }
-void ext_end_of_run(int all_exited) { (void)all_exited; }
+
+void ext_install_obs(void)
+{
+	simk_obs.sig_deliver = obs_sig_deliver;
+	simk_obs.lock_event = obs_lock_event;
+	ext2_install_obs();
+}
+
+void ext_run_begin(void)
+{
+	int i;
+	nsgroup = 0;
+	memset(spin_releases, 0, sizeof(spin_releases));
+	memset(pend_deliv, 0, sizeof(pend_deliv));
+	for (i = 0; i < PL->nobj; i++)
+		if (PL->obj[i].kind == K_RAW && PL->obj[i].p[1] > 0 && PL->obj[i].p[1] <= 64)
+			simk_harness_sigaction((int)PL->obj[i].p[1], hsig);
+	ext2_run_begin();
+}
+
+void ext_obligations(void)
+{
+	signal_obligations();
+	ext2_obligations();
+}
+
+void ext_end_of_run(int all_exited) { ext2_end_of_run(all_exited); }
